@@ -132,17 +132,17 @@ where
         format!("fft/{}", self.1)
     }
     fn cases(&self, tier: Tier) -> u64 {
-        tier.pick(3_000, 40_000)
+        tier.pick(3_000, 14_000)
     }
     fn rule(&self) -> String {
-        "polynomial sizes 2^1..2^12 (quick) / 2^15 (thorough) covering the recursion-strategy switch, coefficients expanded from 1..16 generated seed elements (dense / sparse / zero / exact degree), offset in {1, generator, random non-zero}, blowup 1..128 (LDE domain capped at 2^16 / 2^19); evaluate_poly, serial_fft, evaluate_poly_with_offset, interpolate_poly(_with_offset), get_twiddles, get_inv_twiddles, infer_degree, permute_index vs Horner at offset*w^i (all points up to 256, generated sample positions above); non-trivial = non-constant polynomial".into()
+        "polynomial sizes 2^1..2^12 (quick) / 2^14 (thorough) covering the recursion-strategy switch, coefficients expanded from 1..16 generated seed elements (dense / sparse / zero / exact degree), offset in {1, generator, random non-zero}, blowup 1..128 (LDE domain capped at 2^16 / 2^17); evaluate_poly, serial_fft, evaluate_poly_with_offset, interpolate_poly(_with_offset), get_twiddles, get_inv_twiddles, infer_degree, permute_index vs Horner at offset*w^i (all points up to 256, generated sample positions above); non-trivial = non-constant polynomial".into()
     }
     fn required_labels(&self, _t: Tier) -> Vec<String> {
         vec!["offset=1".into(), "offset=generator".into(), "offset=other".into(), "blowup=1".into(), "blowup>1".into(), "poly=zero".into()]
     }
     fn strategy(&self, tier: Tier) -> BoxedStrategy<FftCase> {
         let d = E::EXTENSION_DEGREE;
-        let max_log = tier.pick(12u32, 15u32);
+        let max_log = tier.pick(12u32, 14u32);
         (
             prop_oneof![3 => 1u32..=8, 2 => 9u32..=max_log],
             poly_spec_strategy::<E::BaseField>(d),
@@ -218,7 +218,7 @@ where
         }
 
         // evaluate_poly_with_offset over the blown-up shifted domain
-        let max_lde_log = if n <= 4096 { 16 } else { 19 };
+        let max_lde_log = if n <= 4096 { 16 } else { 17 };
         let lb = c.log_blowup.min(max_lde_log - c.log_n).min(fp.two_adicity - c.log_n);
         let blowup = 1usize << lb;
         obs.label(if blowup == 1 { "blowup=1" } else { "blowup>1" });
@@ -299,7 +299,7 @@ where
         format!("matrix/{}", self.1)
     }
     fn cases(&self, tier: Tier) -> u64 {
-        tier.pick(1_200, 16_000)
+        tier.pick(1_200, 10_000)
     }
     fn rule(&self) -> String {
         "matrices of {1,2,3,7,8,9,15,16,17,31,33,64,100,127,254,255} columns x 2^3..2^8 (quick) / 2^11 (thorough) rows, per-column polynomials expanded from generated seeds, blowup 2..16, segment width N in {1,2,4,8,16} (column counts that are and are not multiples of N), StarkDomain::from_twiddles with offset {1, generator, random}; ColMatrix::interpolate_columns / evaluate_columns_over / evaluate_columns_at and RowMatrix::evaluate_polys / evaluate_polys_over vs Horner at generated (row, column) sample positions; non-trivial = more than one column and column count not a multiple of N, or an extension field".into()
